@@ -126,6 +126,20 @@ theorem events_reset (c : Cfg) : ∀ (f : Nat) (call : Call) (w : World) (S : Li
       | watch wt => run_cases hrun with grind [Call.inflight, EvReset]
       | unwatch wid => run_cases hrun with grind [Call.inflight, EvReset]
       | other k => run_cases hrun with grind [Call.inflight, EvReset]
+      | clsSet p v =>
+        simp only [run] at hrun
+        subst hrun
+        by_cases hc : (c.isEvent p || w.owned.contains p) = true
+        · simp only [hc, if_true]; exact hq
+        · simp only [hc, Bool.false_eq_true, if_false]
+          have hne : c.isEvent p = false := by
+            cases he : c.isEvent p <;> simp_all
+          intro q hq' hm hs
+          by_cases e : q = p
+          · subst e; rw [hne] at hq'; cases hq'
+          · show (w.vals.set p v).getD q 0 = 0
+            rw [getD_set_other _ _ _ _ (Ne.symm e)]
+            exact hq q hq' hm hs
       | raise => run_cases hrun with grind [Call.inflight, EvReset]
       | raiseBase => run_cases hrun with grind [Call.inflight, EvReset]
       | try_ body => run_cases hrun with grind [Call.inflight, EvReset]
@@ -140,9 +154,9 @@ theorem events_reset (c : Cfg) : ∀ (f : Nat) (call : Call) (w : World) (S : Li
     | setPlain p v =>
       simp only [Call.inflight, List.singleton_append]
       have h1 := ih (.dispatch (sortByPrec (regsFor w p)) { name := p, old := getVal w p, new := v })
-        { w with vals := w.vals.set p v } (p :: S)
+        { w with vals := w.vals.set p v, owned := p :: w.owned } (p :: S)
       have h0 : EvReset c (p :: S) w := EvResetV.cons p hq
-      have h2 : EvReset c (p :: S) { w with vals := w.vals.set p v } := EvResetV.set p v hq
+      have h2 : EvReset c (p :: S) { w with vals := w.vals.set p v, owned := p :: w.owned } := EvResetV.set p v hq
       run_cases hrun with grind [Call.inflight, EvReset]
     | setSlot p k v =>
       simp only [Call.inflight, List.nil_append]
